@@ -429,6 +429,10 @@ func c17Lifecycle(c *core.Ctx, r *core.Rng) {
 			s.SetMutex()
 		}
 		n := r.Range(0, 6)
+		if r.Chance(1, 60) {
+			n = r.Range(4200, 6000) // far beyond any "small stack" regime
+			c.Count("lifecycle.reset.huge")
+		}
 		nils := 0
 		for i := 0; i < n; i++ {
 			if r.Chance(2, 5) {
